@@ -516,4 +516,111 @@ example : (S "border", ["none", "currentcolor", "medium"].map S) ∈ lineDropTab
     dropOnly (["none", "currentcolor", "medium"].map S) [tIdent (S "medium"), tIdent (S "NONE"), tIdent (S "red")] = [tIdent (S "red")] := by
   decide
 
+/-! ## (e) unicode-range -/
+
+/-- **unicode-range, sort and merge**: for every list of ranges (any order, overlapping, nested, adjacent, even
+    ill-formed) and every code point, sorting by start and merging contained/overlapping/adjacent ranges keeps
+    membership — the union of the ranges is unchanged (this is the loop fixed by 6e2925f; the version that advanced
+    after a removal printed `initial` inside a list). -/
+theorem unicode_range_merge_ok (rs : List (Nat × Nat)) (c : Nat) :
+    codePointMem c (mergeRanges (sortRanges rs)) = codePointMem c rs := by
+  rw [← cpm_sort c rs]
+  have hs := sorted_sort rs
+  cases h : sortRanges rs with
+  | nil => rfl
+  | cons a r =>
+    rw [h] at hs
+    simp only [mergeRanges]
+    rw [cpm_mergeInto c a r hs.1 hs.2, cpm_cons]
+
+example : mergeRanges (sortRanges [(0x12, 0x42), (0, 0x10FFFF), (6, 0x1D)]) = [(0, 0x10FFFF)] ∧
+    mergeRanges (sortRanges [(0x17, 0x4B), (6, 0x1D), (0x12, 0x42)]) = [(6, 0x4B)] := by decide
+
+/-! ## (h) writer and passthrough -/
+
+/-- **writer_sep**: `writeDeclaration` emits the lexemes of the values in order, unchanged; between two
+    lexemes it writes exactly one space, or nothing where one side is `,`, `/` or ends in `)` — tokens that can
+    neither absorb nor be absorbed by a neighbour (CSS Syntax 3 §4.3.1) — and never `/` directly before `*`
+    (since e7baddf; before, `c / *d` was written `c/*d`, a comment opener).  No guard: all token lists of the
+    lexer's shapes. -/
+theorem writer_sep (vs : List Tok) (important : Bool) (h : ∀ t ∈ vs, TokShape t) :
+    ∃ out, writeDeclaration vs important = out ++ (if important then S "!important" else []) ∧
+      Joined (vs.map writeArg) out := by
+  refine ⟨writeVals none true vs, rfl, ?_⟩
+  cases vs with
+  | nil => exact Joined.nil
+  | cons t r =>
+    have := writer_joined t r (h t List.mem_cons_self) (fun x hx => h x (List.mem_cons_of_mem _ hx))
+    simpa [writeVals] using this
+
+/-- **passthrough (properties)**: a property without a case in `minifyProperty` keeps its value tokens -/
+theorem passthrough_property (o : Opts) (prop : List Char) (vs : List Tok)
+    (h : rewrittenProps.contains prop = false) : minifyProperty o prop vs = some vs := by
+  unfold minifyProperty
+  by_cases hl : 100 < vs.length
+  · rw [if_pos hl]
+  · rw [if_neg hl, if_pos (by rw [h]; rfl)]
+
+/-- **passthrough (tokens)**: `minifyTokens` touches only numbers, percentages, dimensions, strings, `url()` and
+    functions; every other token (identifier, hash, delimiter, comma, unicode-range, …) is kept as it is -/
+theorem passthrough_token (o : Opts) (prop fn : List Char) (lvl : Nat) (t : Tok)
+    (h : t.tt ≠ .number ∧ t.tt ≠ .percentage ∧ t.tt ≠ .dimension ∧ t.tt ≠ .string ∧ t.tt ≠ .url ∧ t.tt ≠ .function) :
+    minifyTok o prop fn lvl t = some t := by
+  cases lvl with
+  | zero => simp [minifyTok]
+  | succ n =>
+    rw [minifyTok]
+    split <;> first | rfl | (rename_i heq; simp [heq] at h)
+
+/-- **passthrough (complex values)**: a value that is not a flat list (blocks, `a=b`, `progid:` …) is written as
+    the parser delivered it: lexemes in order, white space tokens kept -/
+theorem passthrough_raw (o : Opts) (prop : List Char) (comps : List Tok) (hne : comps ≠ [])
+    (hflat : parseDeclaration (stripImportant comps).1 = none)
+    (hf : ¬ (prop = S "filter" ∧ (stripImportant comps).1.length = 11)) :
+    minifyDeclaration o prop comps =
+      some (writeRaw none (stripImportant comps).1 ++ (if (stripImportant comps).2 then S "!important" else [])) := by
+  unfold minifyDeclaration
+  have : comps.isEmpty = false := by simpa using hne
+  simp only [this, Bool.false_eq_true, if_false, hflat]
+  split
+  · rename_i h
+    simp only [Bool.and_eq_true, beq_iff_eq] at h
+    exact absurd h hf
+  · rfl
+
+/-- the raw writer is plain concatenation; the only byte it ever adds is the space that keeps `/` and `*` apart -/
+theorem writeRaw_plain (comps : List Tok) (prev : Option (List Char))
+    (h : ∀ p ∈ prev, ∀ t ∈ comps.head?, opensComment p t.data = false)
+    (h2 : ∀ a b, [a, b] <:+: comps → opensComment a.data b.data = false) :
+    writeRaw prev comps = (comps.map (·.data)).flatten := by
+  induction comps generalizing prev with
+  | nil => rfl
+  | cons t r ih =>
+    have hstep : writeRaw prev (t :: r) = t.data ++ writeRaw (some t.data) r := by
+      cases prev with
+      | none => simp [writeRaw]
+      | some p => simp [writeRaw, h p (by simp) t (by simp)]
+    rw [hstep]
+    simp only [List.map_cons, List.flatten_cons]
+    congr 1
+    apply ih
+    · intro p hp x hx
+      simp only [Option.mem_def, Option.some.injEq] at hp
+      subst hp
+      cases r with
+      | nil => simp at hx
+      | cons y r' =>
+        simp only [List.head?_cons, Option.mem_def, Option.some.injEq] at hx
+        subst hx
+        exact h2 t y ⟨[], r', by simp⟩
+    · intro a b hab
+      apply h2 a b
+      obtain ⟨l1, l2, e⟩ := hab
+      exact ⟨t :: l1, l2, by simp [← e]⟩
+
+example : TokShape (tNum ['1']) ∧ TokShape (Tok.mk .delim ['/'] []) ∧ TokShape (Tok.mk .delim ['*'] []) ∧
+    writeDeclaration [tNum ['1'], Tok.mk .delim ['/'] [], Tok.mk .delim ['*'] []] false = S "1/ *" ∧
+    writeDeclaration [tIdent (S "a"), Tok.mk .comma [','] [], tNum ['1'], tNum ['2']] true = S "a,1 2!important" := by
+  decide
+
 end Verif.Props.C04
